@@ -379,16 +379,18 @@ PLANS = {
     "C01": dict(proofs=["Proofs.C01"], runs=[("engine", dict(quick=30000, thorough=1500000), ["--focus", "C01"])],
                 rule=ENGINE_RULE,
                 technique="Lean 4 ES2025 specification (laws proved) as executable oracle: spec-vs-implementation differential on generated ASTs"),
-    "C04": dict(proofs=["Proofs.C04"], runs=[("engine", dict(quick=30000, thorough=1500000), ["--focus", "C04"]),
+    "C04": dict(proofs=["Proofs.C04", "Proofs.C04Sem"], runs=[("engine", dict(quick=30000, thorough=1500000), ["--focus", "C04"]),
                                              ("compiler", dict(quick=20000, thorough=600000))],
                 rule=ENGINE_RULE,
                 technique="Lean 4 proof (prefilter transparency for any admissible scan; byte-scan and lead-byte lemmas) + executor tie + predicate-vs-Arbitrary differential"),
     "C02": dict(proofs=[], runs=[("engine", dict(quick=30000, thorough=1500000), ["--focus", "C02"])],
                 rule=ENGINE_RULE, technique="(proofs pending)"),
-    "C03": dict(proofs=[], runs=[("engine", dict(quick=30000, thorough=1500000), ["--focus", "C03"]),
+    "C03": dict(proofs=["Proofs.C03"], runs=[("engine", dict(quick=30000, thorough=1500000), ["--focus", "C03"]),
                                  ("compiler", dict(quick=30000, thorough=900000))],
-                rule=ENGINE_RULE, technique="(proofs pending)"),
-    "C05": dict(proofs=[], runs=[("engine", dict(quick=30000, thorough=1500000), ["--focus", "C05"])],
+                rule=ENGINE_RULE + "; compiler tie: per generated pattern the real IR before/after optimization, start predicate and program vs the Lean models, and the IR semantics vs the real first match",
+                technique="Lean 4 proof: every optimizer pass and the whole pipeline preserve the IR semantics (all inputs) + exact correspondence of the optimizer / IR-semantics models with the code + opt-vs-no_opt differential"),
+    "C05": dict(proofs=[], runs=[("engine", dict(quick=30000, thorough=1500000), ["--focus", "C05"]),
+                                 ("c05scope", dict(quick=0, thorough=0))],
                 rule=ENGINE_RULE, technique="(proofs pending)"),
     "C13": dict(proofs=[], runs=[("engine", dict(quick=30000, thorough=1500000), ["--focus", "C13"])],
                 rule=ENGINE_RULE, technique="(proofs pending)"),
